@@ -154,7 +154,7 @@ pub fn c08_containers() {
 //@ bound: Operation{"===" / "!==", [Raw(c), Raw(c)]} with the SAME literal container c = [] twice: operands are materialised per evaluation, so the result is false / true (the pointer shortcut of strict_eq cannot fire)
 //@ cuts: evaluate_lazy_data
 #[cfg_attr(kani, kani::proof)]
-#[cfg_attr(kani, kani::unwind(3))]
+#[cfg_attr(kani, kani::unwind(5))]
 #[cfg_attr(kani, kani::stub(std::fmt::format, stub_format))]
 #[cfg_attr(verif_replay, test)]
 pub fn c08_fresh_operands() {
